@@ -4,8 +4,8 @@
    implements it. *)
 From Coq Require Import List Arith Bool NArith.
 From FFSM2 Require Import Model.TaskList Model.BitArray Model.BitStream Model.Plan Model.Ancestors Model.Machine
-  Proofs.BitArrayProofs Proofs.MachineFrame Proofs.MachinePlan Proofs.MachineLife Proofs.GuardProofs Proofs.CycleProofs Proofs.PlanStep
-  Proofs.SerialProofs Proofs.LogProofs Proofs.MachineTop Model.Multi Generated.InitFacts Proofs.ConstructProofs Proofs.LifeMonitor Proofs.ActivationRounds Proofs.IndexSafety Proofs.FeatureProofs.
+  Proofs.BitArrayProofs Proofs.TaskListProofs Proofs.TaskListRun Proofs.PlanProofs Proofs.MachineFrame Proofs.MachinePlan Proofs.MachineLife Proofs.GuardProofs Proofs.CycleProofs Proofs.PlanStep
+  Proofs.SerialProofs Proofs.LogProofs Proofs.MachineTop Model.Multi Generated.InitFacts Proofs.ConstructProofs Proofs.LifeMonitor Proofs.ActivationRounds Proofs.IndexSafety Proofs.FeatureProofs Model.Script Proofs.Contract Proofs.Histories Proofs.StatusBits.
 Import ListNotations.
 
 (* the SUCCESS branch of the plan step: remaining tasks in original order, the request is the last fired task's
@@ -114,6 +114,35 @@ Theorem C08_plan_step_only_in_update_react :
            (exists l : list (event P), tr P s5 = l ++ tr P s /\ MachineFrame.quiet P cfg a l).
 Proof. exact (cycle_processes_last). Qed.
 Print Assumptions C08_plan_step_only_in_update_react.
+
+(* over whole histories: at the plan step of every update()/react() of every in-contract history the state active when
+   the call began is still the active one, the plan satisfies its invariant and both report bit arrays are well formed
+   - the hypotheses under which the statements of this file describe the step - and the call is: six phase deliveries;
+   the plan step from that state; request processing *)
+Theorem C08_every_plan_step_of_every_history :
+  forall (P : Type) (cfg : config) (orc : oracle P),
+         wf_cfg cfg ->
+         wf_oracle P cfg orc ->
+         forall (lg : bool) (pre : list (api_op P)) (op : api_op P) (post : list (api_op P))
+           (mpre mmid mpost : method),
+         ops_ok P cfg orc (construct P cfg orc lg) (pre ++ op :: post) ->
+         is_cycle_op P op = Some (mpre, mmid, mpost) ->
+         let s := run P cfg orc lg pre in
+         let a := active P (co P s) in
+         let
+         '(s3, k3) := at_plan_step P cfg orc mpre mmid mpost s in
+          a < c_n cfg /\
+          active P (co P s3) = a /\
+          PIc P cfg (plan P (co P s3)) /\
+          wf (N.of_nat (c_n cfg)) (pd_succ (plan P (co P s3))) /\
+          wf (N.of_nat (c_n cfg)) (pd_fail (plan P (co P s3))) /\
+          (exists l : list (event P), tr P s3 = l ++ tr P s /\ MachineFrame.quiet P cfg a l) /\
+          run P cfg orc lg (pre ++ [op]) =
+          (let
+           '(s4, _) := if c_plans cfg then deep_update_plans P cfg orc (s3, k3) else (s3, k3) in
+            process_request P cfg orc (if c_plans cfg then upd_plan P (pd_clear_region_statuses P) s4 else s4)).
+Proof. exact (every_plan_step_of_every_history). Qed.
+Print Assumptions C08_every_plan_step_of_every_history.
 
 (* the abstract plan invariant the statements above quantify over is inhabited by the concrete one *)
 Theorem plan_invariant_exists :
